@@ -132,8 +132,8 @@ type world struct {
 	calls   []call
 	links   []*link
 	members map[string]map[string]bool // space -> account id -> member
-	gate    *gate // parks a subscribe in CheckMember (before the interest lock)
-	tagGate *gate // parks a subscribe at the pool's AddTagsCtx (interest recorded, tags not yet)
+	gate    *gate                      // parks a subscribe in CheckMember (before the interest lock)
+	tagGate *gate                      // parks a subscribe at the pool's AddTagsCtx (interest recorded, tags not yet)
 	wg      sync.WaitGroup
 
 	relay   *engine
